@@ -417,8 +417,16 @@ def check_group(ctx, transport, vars_, classes, stats):
     left = check_group(ctx, transport, vars_[:mid], classes, stats)
     right = check_group(ctx, transport, vars_[mid:], classes, stats)
     if not left and not right:
+        # both halves pass alone: either the values interact, or the failure was an incident of this daemon
+        # (killed from outside, starved past the timeout). Only a failure that shows again on a fresh daemon is a case.
+        ctx.kill()
+        failure2, per2, _ = run_env(ctx, transport, vars_)
+        stats["envs"] += 1
+        if failure2 is None and not per2:
+            stats["transient"] += 1
+            return []
         stats["combination"] += 1
-        return [mk_case(transport, vars_, f"[{transport}] only in combination: {failure}")]
+        return [mk_case(transport, vars_, f"[{transport}] only in combination: {failure2 or per2}")]
     return left + right
 
 
@@ -426,7 +434,7 @@ def work(task):
     tier, transport, kind, parity, lo, hi = task
     u = universe(tier)
     classes = {}
-    stats = {"envs": 0, "combination": 0}
+    stats = {"envs": 0, "combination": 0, "transient": 0}
     viol = []
     ctx = Ctx()
     try:
@@ -446,7 +454,7 @@ def work(task):
         "viol": viol,
         "keep_all_viol": True,
         "samples": [{"transport": transport, "var": vars_[0]}],
-        "counters": {"environments_sent": stats["envs"], "daemon_spawns": spawns, "daemon_recoveries": recovered, "combination_only_cases": stats["combination"]},
+        "counters": {"environments_sent": stats["envs"], "daemon_spawns": spawns, "daemon_recoveries": recovered, "combination_only_cases": stats["combination"], "transient_group_failures": stats["transient"]},
     }
 
 
